@@ -92,3 +92,20 @@ def gen_mcase(rng, families=gen.FAMILIES, ne=None, width=False, agb=None, kinds=
     if cut and tighten_p and rng.random() < tighten_p:
         tighten(case, rng)
     return case
+
+
+def gen_large_mcase(rng, width="maybe"):
+    """a larger map (40-120 nodes) with a longer trace (12-30 observations); cut-offs always set so that the
+    non-emitting search stays bounded.  For the invariant monitors only."""
+    m = gen.map_large(rng, labels=rng.choice(["int", "str"]))
+    sparse = rng.choice([1, 1, 2])
+    tr = gen.gen_long_trace(rng, m, noise=rng.choice([0.05, 0.15, 0.3]), sparse=sparse)
+    cfg = gen.gen_cfg(rng, width=width, cut=True)
+    cfg["max_dist"] = rng.choice([1.0, 1.5, 2.0])
+    cfg["min_prob_norm"] = rng.choice([None, 0.01, 0.1])
+    if cfg["width"] is not None:
+        cfg["width"] = rng.choice([2, 3, 5, 8])
+    if rng.random() < 0.3 and len(tr) > 4:
+        j = rng.randrange(2, len(tr))
+        tr[j] = [tr[j][0] + 8.0, tr[j][1] + 5.0]
+    return {"map": m, "trace": tr, "cfg": cfg, "large": True}
